@@ -751,6 +751,17 @@ def variant(case, rng):
     return c
 
 
+def same_shape_trial(case, rng):
+    """new trial data of exactly the same shape (same events ids, selection, N): other densities and other
+    zero-background positions — buffers sized by N_values must not carry values over"""
+    c = dict(case)
+    f2, _ = gen_tables(rng, case['K'], case['n_all'], len(case['factors']), 0.2, 0.35, 0.1)
+    for f, g in zip(f2, case['factors']):
+        f['z'] = g['z']
+    c['factors'] = f2
+    return c
+
+
 def gen_like(ctx, rng, case, size, implicit):
     """another trial for the same analysis: same sources, ratio structure, constants and a_k"""
     c = gen_case(ctx, rng, size=size, kind=case['kind'])
@@ -867,7 +878,8 @@ def history_probes(ctx, rng, opa, cases, n, only_caching=None):
             # ---- the TrialDataManager / PDF ratios / llh-ratio object re-used for further trials
             wt = World(case, caching=cach)
             wt.value(ns1)
-            for step, nxt in enumerate([gen_like(ctx, rng, case, rng.choice([1, 3, 8, 20]), idx % 2 == 0),
+            for step, nxt in enumerate([same_shape_trial(case, rng), same_shape_trial(case, rng),
+                                        gen_like(ctx, rng, case, rng.choice([1, 3, 8, 20]), idx % 2 == 0),
                                         gen_like(ctx, rng, case, rng.choice([2, 5, 13]), idx % 2 == 1), case]):
                 wt.new_trial(nxt)
                 Nn, nsel = nxt['N'], len(sel_ids(nxt))
